@@ -37,17 +37,21 @@ impl anytls_rs::verif::Controller for FrameTap {
 
 const SCHEME_B: &str = "stop=4\n0=20-40\n1=50-100,c,100-200\n2=300-500\n3=c,40-80";
 
-async fn app(via: &'static str, front: String, dest: std::net::SocketAddr, chunks: Vec<usize>, how: u64) {
-    let Some(mut c) = super::close::connect_via(via, &front, dest).await else { return };
+/// One application connection. Returns Some(ok) when the destination echoes and the echo was awaited:
+/// ok = every byte came back, unchanged and in order (position-coded data).
+async fn app(via: &'static str, front: String, dest: std::net::SocketAddr, chunks: Vec<usize>, how: u64, echoes: bool, key: u64) -> Option<bool> {
+    let mut c = super::close::connect_via(via, &front, dest).await?;
     let mut total = 0usize;
-    for n in &chunks { if c.write_all(&vec![0x5au8; *n]).await.is_err() { return; } total += n; tokio::time::sleep(Duration::from_millis(2)).await; }
+    for n in &chunks { if c.write_all(&crate::pgen::fill(key, total as u64, *n)).await.is_err() { return None; } total += n; tokio::time::sleep(Duration::from_millis(2)).await; }
     match how {
         // half-close, read the echo to the end
-        0 => { let _ = c.shutdown().await; let mut buf = Vec::new(); let _ = tokio::time::timeout(Duration::from_secs(5), c.read_to_end(&mut buf)).await; }
+        0 => { let _ = c.shutdown().await; let mut buf = Vec::new(); let r = tokio::time::timeout(Duration::from_secs(8), c.read_to_end(&mut buf)).await;
+               if echoes { Some(r.is_ok() && buf == crate::pgen::fill(key, 0, total)) } else { None } }
         // read the echo, then close
-        1 => { let mut buf = vec![0u8; total]; let _ = tokio::time::timeout(Duration::from_secs(5), c.read_exact(&mut buf)).await; }
+        1 => { let mut buf = vec![0u8; total]; let r = tokio::time::timeout(Duration::from_secs(8), c.read_exact(&mut buf)).await;
+               if echoes { Some(matches!(r, Ok(Ok(_))) && buf == crate::pgen::fill(key, 0, total)) } else { None } }
         // close at once with data in flight
-        _ => {}
+        _ => None,
     }
 }
 
@@ -78,7 +82,7 @@ async fn round(log: &Log, tap: &FrameTap, r: &mut Rng, i: u64) {
             let mut buf = [0u8; 256];
             let _ = tokio::time::timeout(Duration::from_secs(3), c.read(&mut buf)).await;
         }
-        app("socks5", socks.clone(), echo.addr, vec![100], 1).await;
+        let _ = app("socks5", socks.clone(), echo.addr, vec![100], 1, true, 1).await;
     }
     for _ in 0..n {
         let via = if r.chance(1, 3) { "http" } else { "socks5" };
@@ -87,10 +91,12 @@ async fn round(log: &Log, tap: &FrameTap, r: &mut Rng, i: u64) {
         let how = r.below(3);
         descr.push(json!({"via": via, "dest": if dest == refusing { "refusing" } else if dest == greet.addr { "greet" } else { "echo" }, "chunks": chunks, "how": how}));
         let front = if via == "socks5" { socks.clone() } else { http.clone() };
-        hs.push(tokio::spawn(app(via, front, dest, chunks, how)));
+        let key = crate::pgen::key(i, hs.len() as u64, 3, 1);
+        hs.push(tokio::spawn(app(via, front, dest, chunks, how, dest == echo.addr, key)));
         if r.chance(1, 2) { tokio::time::sleep(Duration::from_millis(r.range(1, 40))).await; }
     }
-    for h in hs { let _ = h.await; }
+    let mut echoes: Vec<Value> = Vec::new();
+    for (k, h) in hs.into_iter().enumerate() { if let Ok(Some(ok)) = h.await { echoes.push(json!({"ev": "echo", "conn": k, "ok": ok})); } }
     // a quiet period: keep-alive exchanges continue; frames still under way land (up to 3 s)
     tokio::time::sleep(Duration::from_millis(300)).await;
     for _ in 0..60 {
@@ -106,6 +112,7 @@ async fn round(log: &Log, tap: &FrameTap, r: &mut Rng, i: u64) {
     let mut evs = std::mem::take(&mut tap.0.lock().unwrap().events);
     let sessions: std::collections::BTreeSet<(i64, i64)> = evs.iter().filter(|e| e["sess"].as_u64().unwrap_or(0) > base).map(|e| (e["sess"].as_i64().unwrap(), e["client"].as_i64().unwrap())).collect();
     for (s, c) in sessions { evs.push(json!({"ev": "quiet", "sess": s, "client": c})); }
+    evs.extend(echoes);
     evs.push(json!({"ev": "end", "panics": PANICS.load(Ordering::SeqCst) - panics0}));
     log.block_with_consts(json!({"kind": "proto", "i": i, "conns": descr}), json!({"base": base}), evs);
     client.stop_session_pool_cleanup().await;
